@@ -7,11 +7,12 @@ import re
 import os
 import json
 import copy
+import fractions
 
 from hypothesis import strategies as st
 
 from vlib import gen, gen_programs as gp, decode
-from vlib.compare import schema_sig
+from vlib.compare import schema_sig, rows_eq
 from vlib.kernel import (Violation, Info, unexpected, dataflows, quiet, Flow, root_cause, FeedStep)
 from props import c03
 
@@ -148,7 +149,18 @@ def check(case, ctx):
     # ---- transparency
     if sig(desc) != sig(base_desc):
         raise Violation('transparency:schema:%s' % obs['k'], {'with': sig(desc), 'without': sig(base_desc), 'program': prog, 'at': p})
-    if rows != base_rows:
+    # steps that emit Python floats into 'number' fields (true division of integers): every validating step
+    # (a dumper, validate, results() itself) canonicalises such a float to the Decimal of its repr, which is the same
+    # number; float arithmetic downstream of it may then differ from Decimal arithmetic in the last bit.  Only in that
+    # class are numbers compared with a relative tolerance of 1e-12; everywhere else rows are compared exactly.
+    floaty = any((s_['k'] == 'add_computed' and s_.get('operation') == 'avg') or
+                 (s_['k'] == 'join' and list(s_['fields'].values())[0]['aggregate'] in ('avg', 'median')) or
+                 (s_['k'] == 'iterable' and s_.get('late_type') == 'float') for s_ in specs[:p])
+    if floaty:
+        classes.append('float-valued-number-upstream-of-observer')
+    same = (len(rows) == len(base_rows) and all(rows_eq(a_, b_, rel=fractions.Fraction(1, 10 ** 12)) for a_, b_ in zip(rows, base_rows))) if floaty \
+        else rows == base_rows
+    if not same:
         i = next((k for k in range(min(len(rows), len(base_rows))) if rows[k] != base_rows[k]), None)
         d = None
         if i is not None:
